@@ -1,4 +1,58 @@
+import re
+
 from orchestrate.common import run_check
+
+
+def _kind(lines, k):
+    return [ln for ln in lines if ln.startswith(k + " ")]
+
+
+def _metric(verdicts, lines, kind, name):
+    tot = 0
+    for ln, v in zip(lines, verdicts):
+        if ln.startswith(kind + " ") and v:
+            m = re.search(r"\b%s=(\d+)" % name, v)
+            if m:
+                tot += int(m.group(1))
+    return tot
+
+
+def post(lines, verdicts):
+    out = []
+    e = _kind(lines, "E")
+    sk = [ln for ln in e if "| skip-env" in ln]
+    if len(sk) > max(3, len(e) // 50):
+        out.append(("diff", sk[0], "diff e2e tie not exercised: %d of %d E scenarios could not run (%s)"
+                    % (len(sk), len(e), sk[0].split("|", 1)[1].strip()[:80])))
+    floors = {"T": 40, "B": 4, "C": 7, "E": 8}
+    for k, n in floors.items():
+        have = [ln for ln in _kind(lines, k) if "| skip-env" not in ln]
+        if len(have) < n:
+            out.append(("diff", k, "diff tie not exercised: %d cases of kind %s, floor %d" % (len(have), k, n)))
+    # what the evidence claims must have happened: contention, all three arms of compute_next, re-sent frames
+    if _metric(verdicts, lines, "T", "cross_adjacent") < 10000:
+        out.append(("diff", "T", "diff tie not exercised: fewer than 10000 values adjacent across threads (no contention)"))
+    for arm in ("ahead", "plus1", "preepoch"):
+        if _metric(verdicts, lines, "C", arm) < 500:
+            out.append(("diff", "C", "diff tie not exercised: compute_next arm '%s' executed fewer than 500 times under the scripted clock" % arm))
+    if _metric(verdicts, lines, "E", "resent") < 20:
+        out.append(("diff", "E", "diff tie not exercised: fewer than 20 requests were re-sent after UNPREPARED"))
+    for pace in ("5", "6", "7"):
+        if not [ln for ln in _kind(lines, "T") if ln.split("|")[0].split()[-1] == pace]:
+            out.append(("diff", "T", "diff tie not exercised: no T case with pace " + pace))
+    return out
+
+
+def extra_coverage(lines, verdicts):
+    return {
+        "contention_values_adjacent_across_threads": _metric(verdicts, lines, "T", "cross_adjacent"),
+        "contention_values_judged": _metric(verdicts, lines, "T", "values"),
+        "scripted_clock_calls_reading_above_last": _metric(verdicts, lines, "C", "ahead"),
+        "scripted_clock_calls_reading_not_above_last": _metric(verdicts, lines, "C", "plus1"),
+        "scripted_clock_calls_reading_before_epoch": _metric(verdicts, lines, "C", "preepoch"),
+        "e2e_requests_resent_after_unprepared": _metric(verdicts, lines, "E", "resent"),
+        "e2e_scenarios_not_run_env": sum(1 for ln in _kind(lines, "E") if "| skip-env" in ln),
+    }
 
 SPEC = {
     "pid": "C18",
@@ -7,6 +61,10 @@ SPEC = {
     # --n = total number of next_timestamp calls made on real generators
     "sizes": {"quick": 2000000, "thorough": 100000000},
     "search_n": 6000000,
+    "post": post,
+    "extra_coverage": extra_coverage,
+    "min_cases": {"quick": 70, "thorough": 800},
+    "nontrivial": lambda ln: "| skip-env" not in ln,
     "rule": ("T = one real MonotonicTimestampGenerator shared by 2..16 OS threads x 100..65000 calls (every thread "
              "count 2..16 once, then seeded sizes; paces: tight loop, random spins, yield_now, staggered bursts; "
              "with and without the clock-skew warning configuration), every value each thread was handed plus one "
@@ -28,10 +86,13 @@ SPEC = {
         "inside that window unless its own two readings show it",
     ],
     "assumptions": [
+        "scripted clock: the harness binary defines the C symbol clock_gettime (std's SystemTime::now resolves to it at "
+        "static link time); CLOCK_REALTIME readings are scripted, all other clocks are forwarded to libc via dlsym(RTLD_NEXT)",
         "overflow guard of every C18 theorem: all clock readings (as i64) <= B and B + N*M < i64::MAX "
         "(C18_overflow_witness shows the model wraps to i64::MIN without it; in Rust: panic or wrap)",
-        "the system clock is not injectable: the tie cannot choose clock values, it observes real ones "
-        "(stalls/repeats are the common case; backward steps do not occur in the sandbox)",
+        "the warning branch of compute_next (i64 `last - u_cur`, last_warning mutex) is not modelled; it cannot change "
+        "the result unless that subtraction overflows (u_cur < last - i64::MAX, i.e. a reading that wraps to a very "
+        "negative i64); the scripted readings beyond i64::MAX are only used with warnings disabled",
     ],
 }
 
